@@ -323,7 +323,8 @@ def n_positions(n_ring):
 def core_spec(draw, core_rings=(1, 2), n_types=(1, 3), rings=(2, 4), ducts=(1, 2), coolant="const",
               gap_models=("flow",), regimes=("lam", "tra", "tur"), n_steps=(30, 120), allow_empty=True,
               lowfi=True, regions=False, zero_power=False, dT=(5.0, 200.0), duct_const=True,
-              full=False, conv_approx=False, max_cells=2, comps=None, byp_frac=(0.005, 0.2)):
+              full=False, conv_approx=False, max_cells=2, comps=None, byp_frac=(0.005, 0.2),
+              bc_kinds=("FLOWRATE",)):
     """A core of 1, 7 or 19 positions with 1-3 assembly types, empty positions and periphery."""
     F = round(draw(fl(0.03, 0.16)), 6)
     cr = draw(st.integers(*core_rings))
@@ -377,6 +378,7 @@ def core_spec(draw, core_rings=(1, 2), n_types=(1, 3), rings=(2, 4), ducts=(1, 2
     assignment, pfile, posmeta = [], {}, []
     zb_common = draw(axial_cells(max_cells))
     Ptot = 0.0
+    common_dT = r6(draw(fl(max(dT[0], 20.0), max(dT[1], 30.0))))
     for idx in filled:
         tname = "T%d" % draw(st.integers(0, nt - 1))
         meta = metas[tname]
@@ -387,11 +389,19 @@ def core_spec(draw, core_rings=(1, 2), n_types=(1, 3), rings=(2, 4), ducts=(1, 2
         byp = a.get("bypass_gap_flow_fraction", 0.05) if meta["n_duct"] > 1 else 0.0
         fr = r6(fr / (1.0 - byp))
         ring, pos = pos_to_ring(idx)
-        assignment.append([tname, ring, pos, pos, {"FLOWRATE": fr}])
-        if zero_power:
-            P = 0.0
+        bc = draw(st.sampled_from(list(bc_kinds)))
+        if zero_power or bc == "FLOWRATE":
+            assignment.append([tname, ring, pos, pos, {"FLOWRATE": fr}])
+            P = 0.0 if zero_power else fr * cp * draw(fl(*dT))
         else:
-            P = fr * cp * draw(fl(*dT))
+            # temperature boundary condition shared by the whole core (several assemblies of one type then
+            # have the same estimated outlet temperature but different power and flow)
+            if bc == "OUTLET_TEMP":
+                assignment.append([tname, ring, pos, pos,
+                                   {"OUTLET_TEMP": r6(spec["core"]["coolant_inlet_temp"] + common_dT)}])
+            else:
+                assignment.append([tname, ring, pos, pos, {"DELTA_TEMP": common_dT}])
+            P = fr * cp * common_dT
         Ptot += P
         zb = zb_common if draw(st.booleans()) else draw(axial_cells(max_cells))
         pfile[str(idx + 1)] = draw(asm_power(meta, zb, max(P, 1e-3), comps=comps))
